@@ -4,7 +4,7 @@ package genbank
 
 // C03: GenBank write-then-read is the identity and writing is deterministic.
 //
-// verif:bound C03 structured records: locus name 4 symbolic characters, sequence of 3, 12 or 61 symbolic letters, linear/circular/neither, metadata fields one symbolic word each (DEFINITION optionally ~90 characters long, forcing the writer to wrap), 0..2 references with and without REMARK, 0..2 extra keyword blocks, 0..2 features with 0..2 (quick) / 0..3 (thorough) qualifiers (values 2 symbolic bytes over letters, digits and inner space), location cached as text or assembled as a structure, including one-base spans with partial markers; the last word before the DEFINITION wrap point is 2 symbolic printable characters
+// verif:bound C03 structured records: locus name 4 symbolic characters, sequence of 3, 12 or 61 symbolic letters, linear/circular/neither, metadata fields one symbolic word each (DEFINITION optionally ~90 characters long, forcing the writer to wrap), 0..2 references with and without REMARK, the second one sparse (a single optional field present), 0..2 extra keyword blocks, 0..2 features with 0..2 (quick) / 0..3 (thorough) qualifiers (values 2 symbolic bytes over letters, digits and inner space), location cached as text or assembled as a structure, including one-base spans with partial markers; the last word before the DEFINITION wrap point is 2 symbolic printable characters
 // verif:bound C03 determinism: every iteration order of the qualifier maps and of the extra-keyword map is explored for two independent writes (exact for maps of <= 3 entries); natively the writes are repeated 50 times
 // verif:bound C03 parser-image clause: Parse(Build(Parse(t))) = Parse(t) for the C01 selftest record
 // verif:bound C03 outside the claim: sequences of 10^5 letters, 40 features, 8 qualifiers, metadata of 2000 characters, Write/Read file wrappers; the 'independent reader' is the layout checks of this harness (column facts), not a second full parser
@@ -38,8 +38,8 @@ func c03Punct() string {
 
 func c03Record() poly.Sequence {
 	var x poly.Sequence
-	full := vTier(0, 1) == 1 // thorough: cross product of the axes; quick: eight tied profiles
-	prof := vChoice(8)
+	full := false // the axes are tied to a profile: 8 profiles (quick) / 24 (thorough)
+	prof := vChoice(vTier(8, 24))
 	ax := func(k, n int) int {
 		if full {
 			return vChoice(n)
@@ -80,6 +80,24 @@ func c03Record() poly.Sequence {
 		if i == 0 {
 			r.Remark = "remark " + c03Word()
 		}
+		if i == 1 {
+			// sparse reference: every optional field but one is empty
+			keep := ax(2, 4)
+			if full {
+				keep = vChoice(4)
+			}
+			r = poly.Reference{Index: gItoa(i + 1), Range: r.Range}
+			switch keep {
+			case 0:
+				r.Authors = "Doe,J. and " + c03Word()
+			case 1:
+				r.Title = "Direct " + c03Word()
+			case 2:
+				r.Journal = "Unpublished " + c03Word()
+			case 3:
+				r.PubMed = "12345"
+			}
+		}
 		m.References = append(m.References, r)
 	}
 	m.Other = map[string]string{}
@@ -101,8 +119,8 @@ func c03Record() poly.Sequence {
 		}
 		f.Attributes = map[string]string{}
 		nq := vChoice(vTier(3, 4))
-		if !full && i == 1 {
-			nq = 2
+		if i == 1 {
+			nq = 2 + prof%2*vTier(0, 1)
 		}
 		keys := []string{"gene", "note", "product"}
 		for q := 0; q < nq; q++ {
